@@ -837,6 +837,10 @@ func countLeadingSpace(line string) (i int) {
 	return i
 }
 
+func offsetLineRange(lr diags.LineRange, offsetLine int) diags.LineRange {
+	return diags.LineRange{First: lr.First + offsetLine, Last: lr.Last + offsetLine}
+}
+
 func validateStringMap(field string, nodes []yamlMap, offsetLine int, lines diags.LineRange) (bool, ParseError, diags.LineRange) {
 	names := map[string]struct{}{}
 	for _, entry := range nodes {
@@ -848,9 +852,9 @@ func validateStringMap(field string, nodes []yamlMap, offsetLine int, lines diag
 		}
 		if _, ok := names[entry.key.Value]; ok {
 			return false, ParseError{
-				Line: entry.key.Line,
+				Line: entry.key.Line + offsetLine,
 				Err:  fmt.Errorf("duplicated %s key %s", field, entry.key.Value),
-			}, rangeFromYamlMaps(nodes)
+			}, offsetLineRange(rangeFromYamlMaps(nodes), offsetLine)
 		}
 		names[entry.key.Value] = struct{}{}
 	}
